@@ -16,9 +16,12 @@ try:
     # place demo files where they are in the seed worktree (untracked files there)
     out = subprocess.run(["git", "-C", src, "status", "--porcelain", "--untracked-files=all"], stdout=subprocess.PIPE, text=True).stdout
     demos = [l[3:] for l in out.splitlines() if l.startswith("??") and not l[3:].startswith("SEEDED/") and l[3:] != "PROMPT.md"]
+    if not demos:  # demo only delivered inside SEEDED/: keep those files
+        demos = ["SEEDED/" + f for f in os.listdir(S) if f.endswith(".go")]
     for d in demos:
         os.makedirs(os.path.dirname(os.path.join(wt, d)) or wt, exist_ok=True)
         shutil.copy(os.path.join(src, d), os.path.join(wt, d))
+    shutil.copytree(S, os.path.join(wt, "SEEDED"))
     cmd = meta.get("demo_cmd")
     def run_demo():
         r = subprocess.run(cmd, shell=True, cwd=wt, env=env, stdout=subprocess.PIPE, stderr=subprocess.STDOUT, text=True)
